@@ -44,7 +44,7 @@ func findDecision(r *Run, rule string) *decisionSite {
 	var site *decisionSite
 	n := 0
 	for _, fn := range sortedFuncs(reach) {
-		for _, st := range storesTo(fn, "Status", "ActiveReplicaSet") {
+		for _, st := range storesToFieldOf(fn, pkgAPI, "ExtendedDaemonSetStatus", "ActiveReplicaSet") {
 			n++
 			pos := r.Prog.Pos(instrPos(st))
 			root, path := accessPath(st.Val)
@@ -506,7 +506,7 @@ func c05Ended(r *Run) {
 			}
 			restartFromCond := false
 			for _, c := range cands {
-				if restartTerm(c) && dependsOn(c, func(x ssa.Value) bool {
+				if restartTerm(c) && r.Prog.dependsOnIP(c, func(x ssa.Value) bool {
 					_, pp := accessPath(x)
 					return len(pp) >= 1 && pp[len(pp)-1] == "LastUpdateTime" || (len(pp) >= 2 && pp[len(pp)-2] == "LastUpdateTime")
 				}) {
@@ -522,11 +522,13 @@ func c05Ended(r *Run) {
 	}
 	// the restart time is read from the PodRestarting condition
 	wired := false
-	for _, c := range callsIn(fn) {
-		if calleeName(c.Common()) == pkgERSCond+".GetExtendedDaemonSetReplicaSetStatusCondition" {
-			if s, okc := constString(c.Common().Args[1]); okc {
-				if want, _ := r.Prog.constStr(pkgAPI, "ConditionTypePodRestarting"); s == want {
-					wired = true
+	for _, g := range r.Prog.calleesWithin(fn, 2) { // the look-up may sit in a small helper
+		for _, c := range callsIn(g) {
+			if calleeName(c.Common()) == pkgERSCond+".GetExtendedDaemonSetReplicaSetStatusCondition" {
+				if s, okc := constString(c.Common().Args[1]); okc {
+					if want, _ := r.Prog.constStr(pkgAPI, "ConditionTypePodRestarting"); s == want {
+						wired = true
+					}
 				}
 			}
 		}
